@@ -56,12 +56,18 @@ def val_text(v, env):
 
 
 class Path:
+    stopped = False     # a `continue` / `break` was taken: nothing that follows in the loop body is rendered on this path
+
     def __init__(self, conds=(), items=()):
         self.conds = tuple(conds)
         self.items = list(items)
 
     def extend(self, other):
-        return Path(self.conds + other.conds, self.items + other.items)
+        if self.stopped:
+            return self
+        p = Path(self.conds + other.conds, self.items + other.items)
+        p.stopped = other.stopped
+        return p
 
     def flat(self, hole=lambda t: "⟦%s⟧" % t, loop=None):
         """text with holes rendered by `hole`; loops rendered once per body path by `loop` (default: body of the first path)"""
@@ -153,6 +159,20 @@ class Templates:
         return self._paths(ast, {}, 0)
 
     _env_ast = {}
+    _capture = None
+
+    def paths_in_context(self, name):
+        """paths of a partial as its includers see it: `set` variables of the including template substituted (`{% set name = struct.name %}` before the
+        include, or `struct.name` written out in the partial, give the same holes).  A template nobody includes is rendered from Rust: its own paths."""
+        self._capture = (name, [])
+        try:
+            for root in sorted(self.reg):
+                if root != name:
+                    self.paths(root)
+            got = self._capture[1]
+        finally:
+            self._capture = None
+        return got or self.paths(name)
 
     def _paths(self, nodes, env, depth):
         """-> list[Path]; env maps `set` variables to expression text"""
@@ -184,6 +204,8 @@ class Templates:
                     a = self.ast_of(nm)
                     if a is not None and depth < 6:
                         sub = self._paths(a, env, depth + 1)
+                        if self._capture is not None and nm == self._capture[0]:
+                            self._capture[1].extend(sub)
                         break
                 if sub is None:
                     sub = [Path((), [("text", "⟪ missing include %s ⟫" % ",".join(n["names"]))])]
@@ -195,6 +217,8 @@ class Templates:
                     body_env[n["key"]] = None
                 body_env["loop"] = None
                 bodies = self._paths(n["body"], body_env, depth + 1)
+                for bp_ in bodies:
+                    bp_.stopped = False      # the jump ends one pass through the body, not what follows the loop
                 item = ("loop", n["value"], expr_text(n["container"], env), bodies)
                 acc = [p.extend(Path((), [item])) for p in acc]
             elif k == "if":
@@ -225,7 +249,11 @@ class Templates:
             elif k in ("block", "filtersection"):
                 sub = self._paths(n["body"], env, depth + 1)
                 acc = [p.extend(s) for p in acc for s in sub][:MAX_PATHS]
-            elif k in ("break", "continue", "extends", "import", "macrodef", "super"):
+            elif k in ("break", "continue"):
+                stop_ = Path()
+                stop_.stopped = True
+                acc = [p.extend(stop_) for p in acc]
+            elif k in ("extends", "import", "macrodef", "super"):
                 acc = [p.extend(Path((), [("text", "⟪%s⟫" % k)])) for p in acc]
         return acc
 
